@@ -149,6 +149,9 @@ NAMES = [
     ("Quota", None, None), ("Limit", None, None), ("Offset", None, None), ("Cursor", None, None),
     ("XMLBody", "XmlBody", "Xmlbody"), ("JSONData", "JsonData", None), ("Ver", None, "VER"), ("Tag", None, None),
 ]
+# names containing `_`: healthy as plain names on both sides and as the source of a snake/Pascal tag; as the TARGET of a
+# tag, or tagged themselves, they are the class of K_map_tag_underscore (tag_guard decides)
+UNDERSCORE_NAMES = [("User_name", None, "USER_NAME"), ("Zip_code", None, None), ("Sku_ID", None, "Sku_id")]
 TAG_SRC_NAMES = ["Alpha", "Bravo", "Carol", "Delta", "Echo", "Fox", "Golf", "Hotel"]
 INNER_NAMES = ["Addr", "Item", "Part", "Meta", "Unit"]
 EMB_NAMES = ["Base", "Audit", "Extra", "Core", "Trace", "Deep", "Leaf"]
@@ -288,7 +291,7 @@ def gen_pair(rng, quirks=False, force=None):
         mapper["ptr"] = r < 0.22
         mapper["recv"] = "ptr" if rng.random() < (0.45 if mapper["ptr"] else 0.2) else "value"
     funcs = [] if use_mapper else None
-    names = list(NAMES)
+    names = list(NAMES) + ([] if force.get("no_underscore") else list(UNDERSCORE_NAMES))
     rng.shuffle(names)
     tagnames = list(TAG_SRC_NAMES)
     rng.shuffle(tagnames)
